@@ -405,6 +405,17 @@ def rule_memo_key(P):
             ok = kd == "param" and len(first.args) == 1
             r.add(getter, first, ok, "" if ok else f"look-up key `{norm(first.args[0])}` is not the whole query argument",
                   slots=dict(lookup_key=norm(first.args[0])))
+        # the fill loop of the getter may not assume that any prefix (not even the empty one) is cached: clear_cache empties the memo
+        for wl in [n for n in walk_live(getter.node) if isinstance(n, ast.While)]:
+            t = wl.test
+            conj = t.values if isinstance(t, ast.BoolOp) and isinstance(t.op, ast.And) else [t]
+            bounds = [c for c in conj if isinstance(c, ast.Compare) and len(c.ops) == 1 and isinstance(c.ops[0], (ast.Gt, ast.GtE)) and W.int_const(c.comparators[0]) is not None]
+            if len(bounds) == 1:
+                k = W.int_const(bounds[0].comparators[0])
+                lo = k + 1 if isinstance(bounds[0].ops[0], ast.Gt) else k  # smallest n for which the loop still runs
+                ok = lo <= 1
+                r.add(getter, wl, ok, "" if ok else f"`while {norm(t)}` stops the search at length {lo - 1}: the fill assumes a cached prefix of that length, which "
+                      f"clear_cache() removes (KeyError on the first query after clearing)", slots=dict(loop=norm(t)))
         # the getter returns the looked-up / stored value
     # _trim_cache
     trim = P.func("cfg.py::CFG.trim")
